@@ -3,19 +3,19 @@
 //! canonical output line per case, every case under `catch_unwind`.
 #![allow(dead_code, unused_imports, unused_variables, unused_mut)]
 
-#[path = "/repo/src/lexer/mod.rs"]
+#[path = "../reposrc/lexer/mod.rs"]
 pub mod lexer;
-#[path = "/repo/src/parser/mod.rs"]
+#[path = "../reposrc/parser/mod.rs"]
 pub mod parser;
-#[path = "/repo/src/utils.rs"]
+#[path = "../reposrc/utils.rs"]
 pub mod utils;
-#[path = "/repo/src/manager/mod.rs"]
+#[path = "../reposrc/manager/mod.rs"]
 pub mod manager;
-#[path = "/repo/src/analyzers/mod.rs"]
+#[path = "../reposrc/analyzers/mod.rs"]
 pub mod analyzers;
-#[path = "/repo/src/threadpool.rs"]
+#[path = "../reposrc/threadpool.rs"]
 pub mod threadpool;
-#[path = "/repo/src/analyzers_v2/mod.rs"]
+#[path = "../reposrc/analyzers_v2/mod.rs"]
 pub mod analyzers_v2;
 
 mod wire;
